@@ -317,7 +317,7 @@ def check(rep, F, tier, replay=None):
             for st in bb["st"]:
                 if st[1] == "=" and st[3][0] == "cast" and st[3][1] == "IntToInt":
                     n_cast += 1
-                    k = e3.cast_lossy(st[3][3], st[3][4])
+                    k = e3.cast_lossy(st[3][3], st[3][4]) if not e3.const_cast_exact(st[3][2], st[3][4]) else None
                     if k:
                         rep.inst("JSON-cast")
                         rep.violation("JSON-cast", "%s|%s->%s" % (F.key(base), st[3][3], st[3][4]), "%s converts %s to %s with `as` (%s) while producing / consuming JSON: values outside the target range change silently and do not survive the JSON round trip" % (F.key(base), st[3][3], st[3][4], k), {})
